@@ -11,8 +11,8 @@
    The judge keeps the tree of the ACCEPTED adds only (Router!AddTo with rollback) and compares
    every call with the reference.  Total: the first failing clause ends the trace.
       P:internal-error  a call raised something that is not a rejection
-      P:reject-noop     the router and its shadow differ, the shadow agreeing with the reference
-                        (or on an add: they differ) -- a rejected add was not a no-op
+      P:reject-noop     after a rejected add the router and its shadow differ, the shadow agreeing
+                        with the reference (on an add: they differ) -- a rejected add was not a no-op
       P:route           wrong hit/miss, wrong resource or wrong template
       P:leak            a parameter that is not a field of the matched template
       P:params          field values differ
@@ -29,7 +29,8 @@ JCT  == UCT
 VARIABLES tid, l, verdict
 jvars == <<tid, l, verdict, vars>>
 ideal == tree
-Idle  == UNCHANGED <<accepted, finder, nadds, last>>
+nrej  == nadds                                  \* here: the number of rejected adds so far
+Idle  == UNCHANGED <<accepted, finder, last>>
 
 T  == Traces[tid]
 Ev == T.ev[l]
@@ -52,7 +53,7 @@ JudgeFind ==
     LET x    == Lookup(ideal, Ev.p)
         main == FindClause(x, Ev.out, Ev.res, Ev.tmpl, Ev.params)
     IN  IF main = "ok" THEN "ok"
-        ELSE IF FindClause(x, Ev.sout, Ev.sres, Ev.stmpl, Ev.sparams) = "ok" THEN "P:reject-noop"
+        ELSE IF nrej > 0 /\ FindClause(x, Ev.sout, Ev.sres, Ev.stmpl, Ev.sparams) = "ok" THEN "P:reject-noop"
         ELSE main
 
 JudgeAdd(a) ==
@@ -67,14 +68,15 @@ Step ==
        THEN LET a == AddTo(ideal, Ev.t, Ev.r, TRUE) IN
               /\ verdict' = JudgeAdd(a)
               /\ tree' = IF Ev.out = "ok" /\ a.out = "ok" THEN a.t ELSE tree
+              /\ nadds' = IF Ev.out = "ok" THEN nadds ELSE nadds + 1
        ELSE /\ verdict' = JudgeFind
-            /\ UNCHANGED tree
+            /\ UNCHANGED <<tree, nadds>>
     /\ l' = l + 1 /\ UNCHANGED tid /\ Idle
 
 Done ==
     /\ l >= 1 /\ (l > Len(T.ev) \/ verdict # "ok")
     /\ PrintT(<<"VERDICT", tid, verdict, l - 1>>)
-    /\ l' = -1 /\ UNCHANGED <<tid, tree, verdict>> /\ Idle
+    /\ l' = -1 /\ UNCHANGED <<tid, tree, nadds, verdict>> /\ Idle
 
 JNext == Step \/ Done
 JSpec == JInit /\ [][JNext]_jvars
